@@ -301,6 +301,7 @@ class Raised:
     name: str  # fq of a repo class or "builtins.X"
     how: str  # stmt | op | may
     where: tuple = ()
+    when: int = 0  # position in the order of events of the current round (raises and pattern uses)
 
 
 @dataclass
@@ -327,6 +328,7 @@ class Site:
     fi: FuncInfo
     node: ast.AST
     calls: set = field(default_factory=set)  # distinct (subject, start position) combinations seen while folding
+    when: int = 0  # first use in the current round
 
 
 @dataclass
@@ -392,6 +394,8 @@ class Interp:
         self.lost_patterns: list[str] = []
         self.cls_fields: dict = {}
         self._aux: dict = {}
+        self.round = 0
+        self.clock = 0
         self.strenum: dict = {}
         self.rec_funcs: set = set()
         self.rec_params: dict = {}
@@ -513,7 +517,8 @@ class Interp:
 
     # ------------------------------------------------------------------ raising
     def raise_(self, name: str, how: str, where: tuple = ()) -> None:
-        r = Raised(name, how, where)
+        self.clock += 1
+        r = Raised(name, how, where, self.clock)
         (self._collectors[-1] if self._collectors else self.raised).append(r)
 
     def op_failed(self, exc: BaseException) -> None:
@@ -2475,7 +2480,9 @@ class Interp:
                 old = self.sites.get(key)
                 # `pattern.search(text, pos)` with a moving start position is a hand-written finditer
                 site_how = "finditer" if how == "search" and span else how
-                st = Site(p, join(old.subject, subject) if old else subject, site_how, fr.fi, e, old.calls if old else set())
+                self.clock += 1
+                st = Site(p, join(old.subject, subject) if old else subject, site_how, fr.fi, e, old.calls if old else set(), old.when if old and old.round == self.round else self.clock)
+                st.round = self.round
                 st.calls.add((subject.consts, tuple(x.consts for x in span)))
                 self.sites[key] = st
             if how in ("search", "match", "fullmatch") and subject.concrete and all(x.concrete and len(x.consts) == 1 for x in span):
@@ -3188,6 +3195,8 @@ class Interp:
         """Interprets `fi(*args)` until the heap is stable.  Returns (returned value, some path returns normally)."""
         last = None
         for rnd in range(25):
+            self.round = rnd
+            self.clock = 0
             self.raised = []
             self._collectors = []
             before = self.version
